@@ -56,3 +56,95 @@ Proof.
   destruct (rx_run cb srx (map f_data (seg ca t payload)) mk) as [s2 e2].
   apply Ht; [|exact Hidle]. constructor; [split; assumption|constructor].
 Qed.
+
+From IsoTp Require Import Proofs.FcPosP.
+
+(** *** Lock step with real flow control
+    Sender [ca] and receiver [cb] (mirrored prefix; the sender uses the ContinueToSend the receiver
+    really answers with: its blocksize and stmin).  The sender's run under the cooperative driver
+    and the receiver's run with immediate answers are over the same frames; the sender has to be
+    granted exactly where the receiver emits a Flow Control - before the first Consecutive Frame
+    (answer to the First Frame) and after every completed block - so the two runs interleave
+    without either side ever waiting for the other in vain. *)
+Theorem lockstep_multi ca cb (Hok : params_ok (c_p ca)) (Hokb : params_ok (c_p cb)) (Hlb : p_listen (c_p cb) = false)
+    (Htbs : 0 < p_tbs_ns (c_p ca)) a (Ha : p_tx_dl (c_p ca) <= a) s rid payload extra t mk (Hmk : forall d, f_data (mk d) = d) :
+  zlen (tx_prefix (c_txa ca)) = c_rx_prefix_size cb ->
+  1 <= zlen payload < 2 ^ 32 -> zlen payload <= p_max_frame_size (c_p cb) -> is_single ca (zlen payload) = false ->
+  let fc := {| fc_status := FS_CTS; fc_bs := p_blocksize (c_p cb); fc_stmin := p_stmin (c_p cb) |} in
+  let ncf := n_cf ca (zlen payload) in
+  let fcref := spec_frame cb (Address.tx_arb_id (c_txa cb) Physical)
+                 (Address.tx_prefix (c_txa cb) ++ [0x30 + FS_CTS; p_blocksize (c_p cb); p_stmin (c_p cb)]) in
+  exists ff s1,
+    start_request ca (s <| active := Some (fresh_req rid payload extra t) |>) (fresh_req rid payload extra t) a = SRDone s1 [] (Some ff) /\
+    let '(cfs, evs, s') := coopw ca fc a (2 * Z.to_nat ncf) s1 true [] [] in
+    (* sender: exactly the reference frames, completed once with success, idle *)
+    ff :: map snd cfs = seg ca t payload /\ evs = [EDone rid true] /\ tx_state s' = TxIdle /\ active s' = None /\
+    (* where the sender had to be granted *)
+    map fst cfs = map (waits_before fc) (zseq 1 ncf) /\
+    forall srx, rx_state srx = RxIdle -> pending_fc srx = false ->
+      let '(s2, e2, fcs) := rx_run_fc cb srx (map f_data (ff :: map snd cfs)) mk in
+      (* receiver: payload delivered once, no error, and its Flow Controls *)
+      e2 = [] /\ rx_queue s2 = rx_queue srx ++ [payload] /\ rx_state s2 = RxIdle /\
+      fcs = Some fcref :: map (fun i => if fc_due cb i ncf then Some fcref else None) (zseq 1 ncf) /\
+      (* ... are emitted exactly where the sender waits: after the First Frame, and after Consecutive
+         Frame i-1 iff the sender must be granted before Consecutive Frame i *)
+      (forall i, 2 <= i <= ncf -> waits_before fc i = fc_due cb (i - 1) ncf).
+Proof.
+  intros Hpre Hn Hmax Hns fc ncf fcref.
+  pose proof (plen_bounds ca) as Hp. pose proof (tx_dl_in ca Hok) as Hdl.
+  destruct (start_first ca Hok s rid payload extra t a Hn Hns) as (Hhd & Hcap & Hgo & _).
+  set (n := zlen payload) in *.
+  set (d := Address.tx_prefix (c_txa ca) ++ ff_header n ++ ztake (ff_cap ca n) payload) in *.
+  assert (Hlen : zlen d <= a).
+  { subst d. rewrite !zlen_app, zlen_ztake by lia.
+    assert (zlen (ff_header n) = p_tx_dl (c_p ca) - zlen (Address.tx_prefix (c_txa ca)) - ff_cap ca n).
+    { unfold ff_header, ff_cap. destruct (n <=? 4095); rewrite !zlen_cons, zlen_nil; lia. }
+    lia. }
+  destruct Hgo as (s1 & Hsr & Hw & Hact & Hsq & Hts & _); [apply Z.leb_le; exact Hlen|].
+  exists (spec_frame ca (Address.tx_arb_id (c_txa ca) Physical) d), s1. split; [exact Hsr|].
+  destruct (start_request_waitfc ca _ _ a s1 [] _ Hsr Hw) as (T1 & T2 & T3).
+  assert (Hcf6 : 6 <= cf_cap ca).
+  { unfold cf_cap. unfold c_tx_prefix in Hp. cbv zeta in *. lia. }
+  assert (Hnc : 0 <= n_cf ca n) by (unfold n_cf; apply Z.div_pos; lia).
+  pose proof Hokb as (_ & _ & _ & _ & Hbsb & _).
+  assert (Hat : at_cfw ca fc rid payload extra t 1 s1 true).
+  { split; [rewrite Hact; f_equal; f_equal; fold n; lia|]. split; [exact Hsq|].
+    left. split; [exact Hw|]. rewrite T3. cbn [now set RecordSet.set] in T1. split; [exact T1|]. split; [exact T2|]. reflexivity. }
+  pose proof (coopw_run ca Hok Htbs fc eq_refl ltac:(cbn; lia) a ltac:(unfold cf_cap; unfold c_tx_prefix in Hp; cbv zeta in *; lia)
+                rid payload extra t ltac:(fold n; lia) (Z.to_nat (n_cf ca n)) 1 s1 true [] [] ltac:(lia) Hat) as Hrun.
+  fold n in Hrun. specialize (Hrun ltac:(lia)). rewrite Z2Nat.id in Hrun by exact Hnc.
+  specialize (Hrun ltac:(unfold n_cf; f_equal; lia) (2 * Z.to_nat (n_cf ca n))%nat ltac:(lia)).
+  fold ncf in Hrun. subst ncf.
+  destruct (coopw ca fc a _ s1 true [] []) as [[cfs evs] s']. destruct Hrun as (Hfr & He & Hi & Ha').
+  cbn [app] in Hfr.
+  assert (Hsnd : map snd cfs = map (fun i => spec_frame ca (Address.tx_arb_id (c_txa ca) Physical) (cf_data ca payload i)) (zseq 1 (n_cf ca n))).
+  { rewrite Hfr, map_map. reflexivity. }
+  assert (Hfst : map fst cfs = map (waits_before fc) (zseq 1 (n_cf ca n))).
+  { rewrite Hfr, map_map. reflexivity. }
+  assert (Hseg : spec_frame ca (Address.tx_arb_id (c_txa ca) Physical) d :: map snd cfs = seg ca t payload).
+  { rewrite Hsnd. unfold seg. fold n. unfold is_single in Hns. apply orb_false_iff in Hns. destruct Hns as [-> ->]. reflexivity. }
+  split; [exact Hseg|]. split; [exact He|]. split; [exact Hi|]. split; [exact Ha'|]. split; [exact Hfst|].
+  intros srx Hidle Hpf.
+  (* the receiver on the same frames *)
+  rewrite Hseg.
+  pose proof (seg_wf ca Hok t payload Hn) as Hwf. rewrite Hpre in Hwf.
+  assert (Hlen2 : length (seg ca t payload) = S (length cfs)) by (rewrite <- Hseg; cbn; rewrite map_length; reflexivity).
+  assert (Hcn : zlen cfs = n_cf ca n).
+  { unfold zlen. rewrite <- (map_length fst), Hfst, map_length. unfold zseq. rewrite map_length, seq_length. lia. }
+  assert (Hncpos : 1 <= n_cf ca n).
+  { unfold n_cf. apply Z.div_le_lower_bound; lia. }
+  inversion Hwf as [pre pad Hp1 Hp2 Hp3 Heq | pre pad Hp1 Hp2 Hp3 Heq | T pre first rest cfsd HT Hpr Hpay Hne Hn2 Hl2 Hcfs Heq].
+  - exfalso. apply (f_equal (@length _)) in Heq. rewrite map_length, Hlen2 in Heq. cbn in Heq.
+    assert (1 <= length cfs)%nat by (unfold zlen in Hcn; lia). lia.
+  - exfalso. apply (f_equal (@length _)) in Heq. rewrite map_length, Hlen2 in Heq. cbn in Heq.
+    assert (1 <= length cfs)%nat by (unfold zlen in Hcn; lia). lia.
+  - pose proof (rx_stream_fc cb mk Hmk Hokb Hlb payload T pre first rest cfsd srx HT Hpr Hpay Hne Hn2 Hl2 Hcfs Hmax Hidle Hpf) as Hrx.
+    destruct (rx_run_fc cb srx ((pre ++ ff_hdr (zlen payload) ++ first) :: cfsd) mk) as [[s2 e2] fcs].
+    destruct Hrx as (R1 & R2 & R3 & R4).
+    assert (Hcd : zlen cfsd = n_cf ca n).
+    { apply (f_equal (@length _)) in Heq. rewrite map_length, Hlen2 in Heq. cbn in Heq. unfold zlen in *. lia. }
+    rewrite Hcd in R4. repeat split; try assumption.
+    intros i Hi2. unfold waits_before, fc_due. cbn [fc_bs].
+    destruct (Z.eqb_spec i 1); [lia|]. cbn [orb].
+    destruct (Z.ltb_spec (i - 1) (n_cf ca n)); [|lia]. rewrite andb_true_r. reflexivity.
+Qed.
